@@ -1,6 +1,6 @@
 """C15 — kernel smoothing is a renormalised local weighted mean
 (tracklib/core/operators.py Filter.execute, core/kernel.py Kernel.toSlidingWindow, algo/filtering.py filter_seq,
-Track.smooth)."""
+Track.smooth, core/track_collection.py TrackCollection.smooth)."""
 import math, itertools
 from fractions import Fraction
 from engine import Prop, fbits, bitsf, ratstr, tok_list, untok, close
@@ -238,6 +238,12 @@ class P(Prop):
     id = "C15"
     design_ref = "DESIGN.md section 5, C15"
     M = "TracklibVerif.Props.C15"
+    MX = "TracklibVerif.Props.C15Ext"
+    MF = "TracklibVerif.Props.C15ExtFin"
+    MN = "TracklibVerif.Props.C15ExtNonneg"
+    MC = "TracklibVerif.Props.C15Coll"
+    MI = "TracklibVerif.Props.C15ExtInfTotal"
+    MS = "TracklibVerif.Props.C15ExtSeq"
     theorems = [
         (M, "TV.C15.window_spec", "(w,x) is in the window of i iff w = k[j] and x = v[i-j+D] for a kernel position j whose sample index is inside the signal and not NaN"),
         (M, "TV.C15.filter_is_mean", "T1: in the domain Filter.execute succeeds, returns one value per observation, and every filtered value is (sum k[j] v[i-j+D]) / (sum k[j]) over the valid j"),
@@ -292,6 +298,25 @@ class P(Prop):
         (M, "TV.C15.execute_local", "locality for Filter.execute as a whole (list normalised in place / Kernel object / Dirac): the kernel preparation does not look at the signal"),
         (M, "TV.C15.filter_local_float", "filter_local instantiated at the IEEE doubles of the Lean runtime (the scalar type of the float streams)"),
         (M, "TV.C15.zero_norm_fails", "outside the domain (a zero norm) the method fails with a division by zero for a Kernel object, never a wrong value"),
+        (MX, "TV.C15.nonfinite_weights_nan", "over Python's numbers (Ext: exact scalars + inf, -inf, nan), no law of arithmetic: weights that are all inf / -inf / nan give NaN at every window that reads a sample, ZeroDivisionError (0 / 0 on the untouched ints) when one reads none; boundaries copied"),
+        (MX, "TV.C15.list_zero_or_nan_total", "a weight list whose total is 0 ([1,-1,0], [0,0,0]) or NaN (a NaN weight: a feature-name kernel over a feature holding a NaN): kernel[i] /= np.sum(...) does not raise, the list is left holding only inf/-inf/nan, the call returns the copied boundaries and NaN at every filtered index (ZeroDivisionError iff a window reads no sample)"),
+        (MX, "TV.C15.inf_sample_pinf", "a window holding +inf samples and no -inf, all weights positive: the output is +inf (Python floats and numpy scalars alike)"),
+        (MX, "TV.C15.inf_sample_both_nan", "a window holding a +inf and a -inf sample, positive weights: the output is NaN, no exception"),
+        (MN, "TV.C15.inf_sample_nonneg_pinf", "non-negative weights (the window of a Kernel object, zero at the support edge), a +inf sample, no -inf, every infinite sample under a positive weight: the output is +inf"),
+        (MN, "TV.C15.inf_sample_zero_weight_nan", "a zero weight on an infinite sample (the edge of a Uniform / Triangular window over +/-inf): 0 * inf is NaN and the output is NaN, not the mean of the samples that carry weight"),
+        (MC, "TV.C15.collection_smooth_all", "TrackCollection.smooth = `for track in self: track.smooth(w)`: when Track.smooth succeeds on every track, every track has become its own smoothed track (in place, in order), nothing is returned, module-level state unchanged"),
+        (MC, "TV.C15.collection_smooth_first_failure", "the first track whose smooth raises stops the loop: the earlier tracks stay smoothed, the later ones are untouched, the exception is that track's own"),
+        (MC, "TV.C15.collection_smooth_is_mean", "T1 for TrackCollection.smooth(width): every track non-empty with x, y, z in the domain of the Gaussian window — in every track each coordinate becomes its mean signal, features untouched"),
+        (MC, "TV.C15.collection_smooth_too_short_fails", "TrackCollection.smooth() with the default constraint = 1e3 (half window 3000), or any width whose half window exceeds the first track: IndexError at the first track, no track smoothed"),
+        (MI, "TV.C15.list_infinite_total", "a weight list whose total is infinite (an inf / -inf weight): the list is left holding only 0 and nan, every filtered index is NaN, ZeroDivisionError iff a window reads no sample — with list_zero_or_nan_total: whenever the total is not a non-zero finite number no filtered output is a number"),
+        (MI, "TV.C15.filterWindowX_np_nan", "generic (no law of arithmetic): if the quotient temp/norm of every window that reads a sample is NaN, a weight-list call returns the copied boundaries and NaN elsewhere, and raises ZeroDivisionError iff a window reads no sample"),
+        (MS, "TV.C15.filterSeq_zero_total_list", "filter_seq(track, weights) with a weight list whose total is 0 or NaN (the derivative kernel [1,0,-1]) on NaN-free coordinates of at least D points: no exception; the caller's list is left as [nan,...,nan] (divided by its total at every dimension); x, y and z are NaN at every filtered index, their first and last D values kept"),
+        (MS, "TV.C15.operateListX_nonfin", "track.operate(FILTER, af, weights, 'temp') when the normalised weights are all inf/-inf/nan: the output feature is NaN at every filtered index, boundary values copied, list left normalised"),
+        (MS, "TV.C15.normalise_nonfin_all_nan", "a non-empty list of inf/-inf/nan weights divided by its total is all NaN: from the second dimension of filter_seq on the list is [nan,...,nan]"),
+        (MF, "TV.C15.fin_div_fin", "temp[i] / norm as numpy computes it from finite accumulators: t/n when n != 0, else inf / -inf by the sign of t, nan for 0/0"),
+        (MF, "TV.C15.finite_weights_any_sign", "finite weights of ANY sign (negative included), every window reading a sample: out[i] = (sum k[j] v[i-j+D]) / (sum k[j]) as numpy divides — the renormalised mean when the norm is not 0, +/-inf or NaN when it cancels; never an exception with numpy weights"),
+        (MF, "TV.C15.ext_model_agrees", "no zero norm: the model over Python's numbers returns exactly the signal of the model over a field (meanSignal), so the domain theorems (filter_is_mean, filter_bounds, ...) hold for it"),
+        (MF, "TV.C15.list_ext_model_agrees", "a weight list with a non-zero total and no zero norm (negative weights allowed): executeListX = execute = (list / total, mean signal of the caller's weights)"),
     ]
     partial = []
     open_statements = ["theorems are over a linearly ordered field: IEEE rounding of the float computation is outside them, except locality (filter_local, filter_far_sample, "
@@ -300,8 +325,19 @@ class P(Prop):
                        "math.exp is a parameter of the Gaussian / Exponential kernel functions: exp_kernel_windows / smooth_gaussian assume it returns positive numbers "
                        "(true of libm on the sampled range, not proved); closed-form user functions are a function parameter tabulated by Python, "
                        "window_shape / window_of_nonneg_kernel apply to them under the stated hypotheses (even, non-negative at the sample points, positive at one)",
-                       "a window that holds an infinite sample has no weighted mean in the reals: the model (Float) is compared with the code there (inf, NaN for inf - inf and 0 * inf), nothing is judged",
-                       "a weight list whose total sum is 0, weights that are NaN (a feature-name kernel over a feature with NaN) or negative are not modelled (numpy yields nan/inf)",
+                       "a window that holds an infinite sample has no weighted mean in the reals and the property demands nothing there; what the code returns is modelled over "
+                       "Ext (Model/FilterExt.lean: exact scalars + inf, -inf, nan with the IEEE rules for the special values), compared on the 'ext' stream (and over Float on 'inff') and proved: "
+                       "+inf for +inf samples under positive weights (inf_sample_pinf; inf_sample_nonneg_pinf for the windows of Kernel objects), NaN for both signs (inf_sample_both_nan) "
+                       "and for a zero weight on an infinite sample (inf_sample_zero_weight_nan); no statement stronger than these exists over an "
+                       "ordered field extended with a top and a bottom, since inf - inf and 0 * inf have no value there (they are NaN)",
+                       "weight lists whose total is 0 or NaN and negative weights are outside the property (it speaks of non-negative kernels; with a total of 0 no renormalisation exists): "
+                       "they are modelled as coded over Ext, compared on the 'ext' stream, and what is returned is proved (list_zero_or_nan_total, nonfinite_weights_nan, "
+                       "finite_weights_any_sign, list_infinite_total for an infinite weight); not judged. Not covered: signed zeros (a total of -0.0 flips the "
+                       "infinities; Ext has one zero) and the rounding of a norm that cancels exactly in the rationals (the stream uses totals that are powers of two, so that the "
+                       "normalised weights are dyadic)",
+                       "the feature-name kernel over a feature holding a NaN is driven through Filter.execute (stream 'ext', via = feat) and covered by list_zero_or_nan_total; "
+                       "Model.operate / filter_seq over a field still report it as `nanKernel`; over Python's numbers the front ends are modelled for weight LISTS only (operateListX, "
+                       "filterSeqListX, stream 'extseq'), not for Kernel objects, feature names, Track.smooth",
                        "values read back as numpy scalars by a later call on the same track change ZeroDivisionError into nan outside the domain: sessions use one track per call, "
                        "and the same track is filtered twice only when both passes are in the domain",
                        "a track shorter than the half window with copied boundaries raises IndexError (short_track_index_error, smooth_too_short_fails): outside the property's "
@@ -319,7 +355,14 @@ class P(Prop):
                 "user-defined kernels given by a table of values (closed-form user functions are a function parameter tabulated by Python), "
                 "filter_seq (int kernel, default kernel, one-element list, float kernel, dispatch on dim: default / module constant / list / str, x/y/z through the feature 'temp', "
                 "in-place renormalisation of the weight list at every dimension), the same track filtered several times with the same kernel object, Track.smooth (default width), "
-                "sessions of calls threading the module-level state")
+                "sessions of calls threading the module-level state; TrackCollection.smooth (Model/FilterColl.lean: the loop over the tracks, each smoothed in place by "
+                "Track.smooth with a new Gaussian kernel, default constraint = 1e3, the first exception leaves the loop; the state of the failing track after the exception is "
+                "not modelled); "
+                "track.operate(FILTER) / filter_seq for a weight LIST over Python's numbers (operateListX / seqLoopListX / filterSeqListX: the list divided by its total again at every "
+                "dimension, coordinates through `temp`); "
+                "Filter.execute over Python's numbers (Model/FilterExt.lean: the same loops `cells` / `normalise` instantiated at Ext = exact scalars + inf, -inf, nan): a weight list "
+                "whose total is 0 / NaN / infinite (`kernel[i] /= norm` with numpy scalars does not raise), negative weights with a cancelling norm (+/-inf, not ZeroDivisionError), "
+                "NaN / infinite weights (a feature-name kernel over a feature holding NaN), infinite samples under list weights and under Kernel-object windows (0 * inf = nan)")
     trusted = ["math.exp / math.sqrt are Float.exp / Float.sqrt of the Lean runtime in the driver (both the C library's); closed-form user kernel functions are a parameter of the model: "
                "their values at the model's sample points are tabulated by the real Python function",
                "math.pow(a, n) for n = 2, 3, 5, 7 is modelled as a product (exact over the rationals, compared at 1e-9 with floats)",
@@ -344,7 +387,15 @@ class P(Prop):
             "property's domain are kept in correspondence-only streams: 'zeronorm' (a window without valid weight), "
             "'badk' (even / empty windows, support < 1, zero-sum kernels, a float kernel, reserved or unknown names, empty tracks); "
             "'zerow' (weight lists with zero weights) is judged at the indices whose valid weights have a positive sum; 'inff' (float signals holding +inf / -inf samples, "
-            "first valid / anywhere / both signs) is judged at the windows that hold no infinite sample and at the copied boundary values. non-trivial = window of "
+            "first valid / anywhere / both signs) is judged at the windows that hold no infinite sample and at the copied boundary values; 'ext' (exact stream over Ext Rat: 20 fixed weight lists "
+            "x every signal over {1, 3, NaN, inf} of the window's length, then random weight lists with a zero total / negative weights (total +/- a power of two) / a NaN or infinite weight / "
+            "positive weights, given as a list or as the name of a feature, and Kernel objects, on signals holding NaN, +inf, -inf) is compared with Model/FilterExt.lean everywhere and judged "
+            "only where the property speaks: non-negative finite weights with a positive total, at the windows holding no infinite sample; 'coll' (TrackCollection.smooth on 0..4 tracks, "
+            "widths 0.5..2 or the default constraint 1e3, tracks longer than the window / between the half window and the window / shorter than the half window / without observation): "
+            "every track reached before an exception is judged like a track smoothed alone, with the window the implementation exposes; the exception is excusable only on the first track "
+            "that is by its input outside the domain or shorter than the half window; 'extseq' (filter_seq with a weight list over Ext Rat: derivative kernels [1,0,-1], [-1,0,1], "
+            "[1,-2,1] and other zero totals, negative weights with a total +/- a power of two, a NaN / infinite weight, on x/y/z and a feature holding NaN / infinite samples; judged only "
+            "for non-negative lists with a positive total). non-trivial = window of "
             "at least 3 weights and a non-constant signal (or a sliding-window case)")
 
     def setup(self):
@@ -406,7 +457,9 @@ class P(Prop):
                 "x filterBoundary True / False / never set x track lengths 1, 2, D-1, D, D+1, N-2, N-1, N, N+1, N+2 x three signals (ramp, spike, isolated NaN)",
                 "the sliding window of every user-defined kernel whose table has 1..3 values among int 0, int 1, float 0.5, float 0.0, numpy 0.25, "
                 "for the supports 1, 1.5, 2, 2.5, 3",
-                "the sliding window of every built-in kernel class at its boundary sizes (smallest support >= 1) and at the widths 1..5, 6, 7.5, 10"]
+                "the sliding window of every built-in kernel class at its boundary sizes (smallest support >= 1) and at the widths 1..5, 6, 7.5, 10",
+                "over Python's numbers (stream 'ext'): every signal over {1, 3, NaN, +inf} of length 3 for each of the 12 three-weight lists of EXT_WEIGHT_LISTS (zero total, negative, "
+                "NaN and infinite weights) — and one signal in nine of length 5 for the five-weight lists"]
 
     def rand_weights(self, rng):
         D = rng.choice([0, 1, 1, 1, 2, 2, 3, 4])
@@ -600,6 +653,368 @@ class P(Prop):
             if all("undefined" not in f and domain_ok(w, f) for f in firsts):
                 c["twice"] = True
         return c
+
+    # ---------------------------------------------------------------- 'ext': Filter.execute over Python's numbers
+    # (Model/FilterExt.lean: scalar Ext Rat = rationals + inf, -inf, nan). Case: {"kind": "ext", "sc": "r", "sig": [...],
+    # "k": {"t": "list", "w": [...]} | a Kernel object of RATIONAL_KERNELS / dirac, "via": "list" | "feat"}; values are
+    # dyadic numbers, None (NaN), "inf", "-inf". via = "feat": the weights are the values of the feature "w" (as many
+    # as observations) and the kernel is given by its name.
+    EXT_WEIGHT_LISTS = [[1, -1, 0], [0, 0, 0], [1, 0, -1], [2, -1, -1], [-1, 2, -1], [1, 1, -2, 0, 0], [0.5, -0.5, 0], [1, -2, 2],
+                        [1, -2, 1.5], [-1, -2, -1], [3, -1, 0], [1, -1, 1], [1, 2, -1, -1, 1], [1, None, 1], [None, None, None],
+                        [1, 2, None, 2, 1], [1, "inf", 1], [1, "-inf", 2], ["inf", "-inf", 1], [0, 0, 0, 0, 0]]
+
+    def ext_tok(self, a):
+        return "nan" if a is None else (a if isinstance(a, str) else ratstr(a))
+
+    def ext_val(self, t):
+        if t == "nan":
+            return None
+        if t in ("inf", "-inf"):
+            return float(t)
+        return float(Fraction(t))
+
+    def ext_class(self, case):
+        """which of the situations of Model/FilterExt.lean the input is in (decided on the input alone)"""
+        k = case["k"]
+        tags = []
+        if k["t"] == "list":
+            w = k["w"]
+            if any(a is None for a in w):
+                tags.append("nan_weight")
+            elif any(isinstance(a, str) for a in w):
+                tags.append("inf_weight")
+            else:
+                if sum(Fraction(a) for a in w) == 0:
+                    tags.append("zero_total")
+                if any(a < 0 for a in w):
+                    tags.append("negative_weight")
+        if any(isinstance(a, str) for a in case["sig"]):
+            tags.append("inf_sample")
+        return tags or ["plain"]
+
+    def ext_cases(self, rng, quick):
+        out = []
+        # every weight list of EXT_WEIGHT_LISTS on every signal over {1, 3, NaN, inf} of length N..N+1 (lists) -- bounded
+        for w in self.EXT_WEIGHT_LISTS:
+            n = len(w)
+            for c, v in enumerate(itertools.product([1, 3, None, "inf"], repeat=n)):
+                if n == 3 or c % 9 == 4:
+                    out.append({"kind": "ext", "sc": "r", "sig": list(v), "k": {"t": "list", "w": list(w)}, "via": "list"})
+        vals = [0, 1, 2, -1, 0.5, 3, 4, -2.5, 8]
+        for _ in range(500 if quick else 5000):
+            D = rng.choice([1, 1, 1, 2, 3])
+            N = 2 * D + 1
+            r = rng.random()
+            if r < 0.35:        # zero total, any signs
+                w = [rng.choice([-2, -1, 0, 0, 1, 2, 0.5, -0.5]) for _ in range(N - 1)]
+                w.insert(rng.randrange(N), -sum(w))
+            elif r < 0.6:       # negative weights; the total is +/- a power of two, so that the normalised weights are dyadic and a
+                #                     collected norm that cancels exactly in the rationals cancels exactly in floating point too
+                w = [rng.choice([-2, -1, 0, 1, 2, 3, 0.5, -0.5]) for _ in range(N - 1)]
+                w.insert(rng.randrange(N), rng.choice([1, 2, 4, 8, 0.5, -1, -2, -4]) - sum(w))
+            elif r < 0.75:      # a NaN / an infinite weight
+                w = [rng.choice([0, 1, 2, 0.5]) for _ in range(N)]
+                w[rng.randrange(N)] = rng.choice([None, None, "inf", "-inf"])
+            else:               # positive weights (the property's kernels), infinite samples
+                w = [rng.choice([1, 2, 3, 0.5, 0.25]) for _ in range(N)]
+            via = "feat" if rng.random() < 0.25 else "list"
+            n = N if via == "feat" else N + rng.choice([-2, -1, 0, 0, 1, 2, 3, 5])
+            if n < 1:
+                n = 1
+            v = [rng.choice(vals) for _ in range(n)]
+            for _ in range(rng.choice([0, 0, 1, 1, 2, n])):
+                v[rng.randrange(n)] = rng.choice([None, None, "inf", "-inf"])
+            if r >= 0.75 and not any(isinstance(a, str) for a in v):
+                v[rng.randrange(n)] = rng.choice(["inf", "-inf"])
+            out.append({"kind": "ext", "sc": "r", "sig": v, "k": {"t": "list", "w": w}, "via": via})
+        # Kernel objects (Python-float windows) on signals holding infinite samples
+        for _ in range(150 if quick else 1500):
+            t = rng.choice(RATIONAL_KERNELS + ("dirac",))
+            k = {"t": t, "fb": self.rand_fb(rng)}
+            if t != "dirac":
+                k["p"] = rng.choice([1, 2, 3, 1.5, 2.5])
+            N = len(shape_weights(k))
+            n = max(1, N + rng.choice([-1, 0, 0, 1, 2, 4]))
+            v = [rng.choice(vals) for _ in range(n)]
+            for _ in range(rng.choice([1, 1, 2, 3])):
+                v[rng.randrange(n)] = rng.choice([None, "inf", "inf", "-inf"])
+            out.append({"kind": "ext", "sc": "r", "sig": v, "k": k, "via": "list"})
+        return out
+
+    def ext_impl(self, case):
+        v, k = case["sig"], case["k"]
+        t = self.mk_track([float(i) for i in range(len(v))])
+        t.createAnalyticalFeature("a", [num(a) for a in v])
+        if case["via"] == "feat":
+            t.createAnalyticalFeature("w", [num(a) for a in k["w"]])
+            kern = "w"
+        elif k["t"] == "list":
+            kern = [num(a) for a in k["w"]]
+        else:
+            kern = self.mk_kernel(k)
+        ret = t.operate(self.Operator.FILTER, "a", kern, "b")
+        res = {"out": [canon(a) for a in t.getAnalyticalFeature("b")], "ret": [canon(a) for a in ret],
+               "kafter": [canon(a) for a in kern] if isinstance(kern, list) else None,
+               "input_after": [canon(a) for a in t.getAnalyticalFeature("a")], "window": self.window_of(k)}
+        if case["via"] == "feat":
+            res["weights_after"] = [canon(a) for a in t.getAnalyticalFeature("w")]
+        return res
+
+    def ext_requests(self, case):
+        k = case["k"]
+        ks = "list " + tok_list(self.ext_tok(a) for a in k["w"]) if k["t"] == "list" else self.kspec("r", k)
+        ls = ["C15.execx r %s %s" % (tok_list(self.ext_tok(a) for a in case["sig"]), ks)]
+        if self.needs_sw(k):
+            ls.append("C15.sw r %s" % ks)
+        return ls
+
+    def ext_decode(self, case, replies):
+        r = replies[0].split(" ")
+        if r[0] != "ok":
+            return {"err": r[0]}
+        out = [self.ext_val(t) for t in untok(r[2])]
+        res = {"out": out, "ret": out, "input_after": [canon(num(a)) for a in case["sig"]], "window": self.decode_sw("r", case["k"], replies[-1]),
+               "kafter": None if (r[1] == "none" or case["via"] == "feat") else [self.ext_val(t) for t in untok(r[1])]}
+        if case["via"] == "feat":
+            res["weights_after"] = [canon(num(a)) for a in case["k"]["w"]]      # a fresh list is normalised, not the feature
+        return res
+
+    def ext_spec(self, case, out):
+        """what the PROPERTY says of these inputs: it speaks of non-negative kernels and of weighted means of real numbers.
+        Non-negative finite weights with a positive total (and every Kernel object, with the sliding window the implementation
+        itself exposes): the windows holding no infinite sample are judged (check_nonfinite), when every window keeps a positive
+        valid weight. Anything else (a zero / NaN / infinite
+        total, a negative weight) is outside the statement: correspondence with the model only (theorems
+        list_zero_or_nan_total, nonfinite_weights_nan say what is returned)."""
+        k = case["k"]
+        if k["t"] == "list":
+            w = k["w"]
+            if any(not finite(a) for a in w) or any(a < 0 for a in w) or sum(w) <= 0:
+                return None
+            w, fb = [Fraction(a) for a in w], False
+        else:
+            # the window is the implementation's own (observed, checked for the shape the property states), never the clean tree's
+            w, fb, bad = self.weights_for(k, out)
+            if bad:
+                return bad
+        v = case["sig"]
+        if not domain_ok(w, [0 if isinstance(a, str) else a for a in v], fb) or index_zone(w, fb, len(v)):
+            return None
+        if "err" in out:
+            return "raised %s (%s) inside the domain" % (out["err"], out.get("detail", ""))
+        if out["input_after"] != [canon(num(a)) for a in v]:
+            return "the input feature was modified: %r" % out["input_after"]
+        return check_nonfinite(w, v, fb, out["out"], "feature")
+
+    # ---------------------------------------------------------------- 'coll': TrackCollection.smooth
+    # case: {"kind": "coll", "sc": "f", "tracks": [{"x": .., "y": .., "z": ..}, ...], "w": width, "womit": bool (default constraint = 1e3)}
+    def coll_width(self, case):
+        return 1000.0 if case.get("womit") else case["w"]
+
+    def coll_cases(self, rng, quick):
+        out = [{"kind": "coll", "sc": "f", "tracks": [], "w": 1}]
+        for _ in range(120 if quick else 1500):
+            wd = rng.choice([1, 1, 2, 1.5, 0.5, 0.75])
+            D = int(3 * wd)
+            tracks = []
+            for _ in range(rng.randrange(1, 5)):
+                r = rng.random()
+                if r < 0.78:
+                    n = 2 * D + 1 + rng.randrange(0, 7)
+                elif r < 0.9:
+                    n = rng.randrange(D, 2 * D + 1)                # shorter than the window, at least the half window: unchanged
+                elif r < 0.97:
+                    n = rng.randrange(1, D) if D > 1 else 2 * D + 1   # shorter than the half window: IndexError, the loop stops
+                else:
+                    n = 0                                             # no observation: AnalyticalFeatureError
+                tracks.append({"x": self.rand_signal(rng, n, nan=False, floats=True),
+                               "y": self.rand_signal(rng, n, nan=(rng.random() < 0.15), floats=True),
+                               "z": self.rand_signal(rng, n, nan=False, floats=True)})
+            out.append({"kind": "coll", "sc": "f", "tracks": tracks, "w": wd})
+        for _ in range(4 if quick else 30):      # the default argument: constraint = 1e3, half window 3000
+            tracks = [{"x": self.rand_signal(rng, n, nan=False, floats=True), "y": self.rand_signal(rng, n, nan=False, floats=True),
+                       "z": self.rand_signal(rng, n, nan=False, floats=True)} for n in [rng.randrange(1, 12) for _ in range(rng.randrange(1, 4))]]
+            out.append({"kind": "coll", "sc": "f", "tracks": tracks, "w": 1000.0, "womit": True})
+        return out
+
+    def coll_impl(self, case):
+        import engine
+        from tracklib.core.track_collection import TrackCollection
+        ts = [self.mk_track(t["x"], t["y"], t["z"]) for t in case["tracks"]]
+        tc = TrackCollection(list(ts))
+        res = {}
+        try:
+            ret = tc.smooth() if case.get("womit") else tc.smooth(case["w"])
+            res["returned"] = None if ret is None else "something"
+        except BaseException as e:
+            if isinstance(e, KeyboardInterrupt):
+                raise
+            res = {"err": engine.err_kind(e), "detail": str(e)[:200]}
+        res["tracks"] = [self.read_track(t) for t in ts]              # the caller's track objects: smoothed in place
+        res["members_same"] = tc.size() == len(ts) and all(tc.getTrack(i) is ts[i] for i in range(len(ts)))
+        res["state"] = self.globals_now()
+        res["window"] = self.safe_window({"t": "gaussian", "p": self.coll_width(case), "fb": None})
+        return res
+
+    def coll_requests(self, case):
+        ks = self.kspec("f", {"t": "gaussian", "p": self.coll_width(case), "fb": None})
+        toks = " ".join(self.track_tok("f", t) for t in case["tracks"])
+        return [("C15.coll f %d %s %s" % (len(case["tracks"]), toks, ks)).replace("  ", " "), "C15.sw f %s" % ks]
+
+    def coll_decode(self, case, replies):
+        parts = replies[0].split(" # ")
+        n = len(case["tracks"])
+        res = {}
+        if parts[0] != "ok":
+            kind, at = parts[0].split("@")
+            res = {"err": kind, "at": int(at)}
+        else:
+            res["returned"] = None
+        tracks = []
+        for p in parts[1:1 + n]:
+            names, sigs = p.split(" ")
+            tracks.append(dict(zip(untok(names), [self.vals("f", s_) for s_ in untok(sigs, ";")])))
+        res["tracks"] = tracks
+        res["members_same"] = True
+        res["state"] = self.decode_globals(parts[1 + n])
+        res["window"] = self.decode_sw("f", {"t": "gaussian"}, replies[-1])
+        return res
+
+    def coll_compare(self, case, a, b):
+        if ("err" in a) != ("err" in b):
+            return "impl=%s model=%s" % (str(a)[:300], str(b)[:300])
+        skip = None
+        if "err" in a:
+            if a["err"] not in self.ERR_MAP.get(b["err"], ()):
+                return "error kinds differ: impl=%s model=%s" % (a["err"], b["err"])
+            skip = b["at"]       # the failing track itself is not modelled after the exception (scratch feature, half-done coordinates)
+        for key in ("returned", "members_same", "state"):
+            if a.get(key) != b.get(key):
+                return "%s: impl=%r model=%r" % (key, a.get(key), b.get(key))
+        if not close(a["window"], b["window"], self.rel_tol):
+            return "window: impl=%s model=%s" % (str(a["window"])[:200], str(b["window"])[:200])
+        for i, (x, y) in enumerate(zip(a["tracks"], b["tracks"])):
+            if i != skip and not close(x, y, self.rel_tol):
+                return "track %d: impl=%s model=%s" % (i, str(x)[:300], str(y)[:300])
+        return None
+
+    def coll_spec(self, case, out):
+        """every track of the collection is to be smoothed like a track smoothed alone (Track.smooth, judged by spec_seq with the
+        window the implementation exposes); an exception is excusable only on the first track that is, by its INPUT, outside the domain
+        (a window without valid weight, no observation) or shorter than the half window with copied boundaries; the tracks before it are
+        judged, the ones after it were never reached"""
+        if not out.get("members_same", True):
+            return "the collection does not hold the caller's tracks any more"
+        win = out.get("window")
+        bad = check_window(win)
+        if bad:
+            return bad
+        w = [Fraction(x) for x in win]
+        wd = self.coll_width(case)
+        def status(t):
+            n = len(t["x"])
+            if n == 0 or any(x < 0 for x in w) or not all(domain_ok(w, t[c]) for c in "xyz"):
+                return "undefined"
+            if index_zone(w, False, n):
+                return "index"
+            return "ok"
+        st = [status(t) for t in case["tracks"]]
+        stop = len(st)
+        if "err" in out:
+            bad_ones = [i for i, s_ in enumerate(st) if s_ != "ok"]
+            if not bad_ones:
+                return "raised %s (%s) although every track is inside the domain" % (out["err"], out.get("detail", ""))
+            stop = bad_ones[0]
+            bad = None if len(case["tracks"][stop]["x"]) == 0 else self.judge_error(dict(case["tracks"][stop], kind="smooth", w=wd, sc="f"), {"err": out["err"], "detail": out.get("detail", ""), "window": win})
+            if bad:
+                return "track %d: %s" % (stop, bad)
+        for i in range(stop):
+            if st[i] != "ok":
+                continue
+            bad = self.spec_seq(dict(case["tracks"][i], api="smooth", w=wd), {"sigs": out["tracks"][i], "same": True, "window": win})
+            if bad:
+                return "track %d of the collection: %s" % (i, bad)
+        return None
+
+    # ---------------------------------------------------------------- 'extseq': filter_seq / operate with a weight list over Python's numbers
+    # case: {"kind": "extseq", "sc": "r", "x": .., "y": .., "z": .., "feats": {..}, "w": [weights], "dims": [names]}
+    def extseq_cases(self, rng, quick):
+        out = []
+        vals = [0, 1, 2, -1, 0.5, 3, 4, -2.5, 8]
+        fixed = [[1, 0, -1], [-1, 0, 1], [1, -2, 1], [0, 0, 0], [1, -1, 0], [1, 2, -1], [1, None, 1], [1, "inf", 1], [-1, -1, 0, 1, 1], [1, 2, 1]]
+        for i in range(400 if quick else 4000):
+            if i < 3 * len(fixed):
+                w = list(fixed[i % len(fixed)])
+            else:
+                D = rng.choice([1, 1, 2, 3])
+                N = 2 * D + 1
+                r = rng.random()
+                w = [rng.choice([-2, -1, 0, 0, 1, 2, 0.5, -0.5]) for _ in range(N - 1)]
+                if r < 0.5:
+                    w.insert(rng.randrange(N), -sum(w))                                              # zero total
+                elif r < 0.8:
+                    w.insert(rng.randrange(N), rng.choice([1, 2, 4, 0.5, -1, -2]) - sum(w))          # +/- a power of two (dyadic normalised weights)
+                else:
+                    w.insert(rng.randrange(N), rng.choice([None, "inf", "-inf"]))
+            N = len(w)
+            n = max(1, N + rng.choice([-2, -1, 0, 0, 1, 2, 3, 5]))
+            def sig():
+                v = [rng.choice(vals) for _ in range(n)]
+                for _ in range(rng.choice([0, 0, 0, 1, 2])):
+                    v[rng.randrange(n)] = rng.choice([None, "inf", "-inf"])
+                return v
+            feats = {"s": sig()} if rng.random() < 0.4 else {}
+            dims = rng.choice([["x", "y", "z"], ["x", "y", "z"], ["x", "y"], ["z"], ["y", "s"] if feats else ["y"], ["s", "x"] if feats else ["x"]])
+            out.append({"kind": "extseq", "sc": "r", "x": sig(), "y": sig(), "z": sig(), "feats": feats, "w": w, "dims": dims})
+        return out
+
+    def extseq_impl(self, case):
+        t = self.mk_track(case["x"], case["y"], case["z"])
+        for nm, v in case["feats"].items():
+            t.createAnalyticalFeature(nm, [num(a) for a in v])
+        kern = [num(a) for a in case["w"]]
+        r = self.F.filter_seq(t, kern, list(case["dims"]))
+        return {"sigs": self.read_track(t), "same": r is t, "kafter": [canon(a) for a in kern]}
+
+    def extseq_requests(self, case):
+        names = ["x", "y", "z"] + list(case["feats"])
+        sigs = [case["x"], case["y"], case["z"]] + [case["feats"][n] for n in case["feats"]]
+        return ["C15.seqx r %s %s %s %s" % (tok_list(case["dims"]), tok_list(names),
+                                            tok_list((tok_list(self.ext_tok(a) for a in s_) for s_ in sigs), ";"),
+                                            tok_list(self.ext_tok(a) for a in case["w"]))]
+
+    def extseq_decode(self, case, replies):
+        r = replies[0].split(" ")
+        if r[0] != "ok":
+            return {"err": r[0]}
+        names = untok(r[2])
+        sigs = [[self.ext_val(t) for t in untok(s_)] for s_ in untok(r[3], ";")]
+        return {"sigs": dict(zip(names, sigs)), "same": True, "kafter": [self.ext_val(t) for t in untok(r[1])]}
+
+    def extseq_spec(self, case, out):
+        """the property speaks of non-negative weight lists with a positive total on signals without infinite sample in the judged windows:
+        then every listed signal is judged (check_nonfinite), the others must be unchanged; anything else is correspondence only"""
+        w = case["w"]
+        if any(not finite(a) for a in w) or any(a < 0 for a in w) or sum(w) <= 0 or len(w) % 2 == 0:
+            return None
+        wf = [Fraction(a) for a in w]
+        allsig = dict({"x": case["x"], "y": case["y"], "z": case["z"]}, **case["feats"])
+        fin0 = lambda v: [0 if isinstance(a, str) else a for a in v]
+        if len(w) > 1 and (any(not domain_ok(wf, fin0(allsig[d])) for d in case["dims"]) or index_zone(wf, False, len(case["x"]))):
+            return None
+        if "err" in out:
+            return "raised %s (%s) inside the domain" % (out["err"], out.get("detail", ""))
+        if not out["same"]:
+            return "filter_seq did not return the track it filtered"
+        for nm, v in allsig.items():
+            got = out["sigs"].get(nm)
+            if nm in case["dims"] and len(w) != 1:
+                bad = check_nonfinite(wf, v, False, got, nm)
+                if bad:
+                    return bad
+            elif got != [canon(num(a)) for a in v]:
+                return "%s was not to be filtered but changed: %r -> %r" % (nm, v, got)
+        return None
 
     def cases(self, rng, tier):
         out = []
@@ -805,6 +1220,9 @@ class P(Prop):
         # ---- outside the domain: refused kernels, names and tracks (correspondence only)
         for _ in range(150 if quick else 1500):
             out.append(self.rand_bad(rng))
+        out.extend(self.ext_cases(rng, quick))
+        out.extend(self.coll_cases(rng, quick))
+        out.extend(self.extseq_cases(rng, quick))
         return out
 
     def rand_op(self, rng):
@@ -955,6 +1373,15 @@ class P(Prop):
 
     def describe(self, case):
         kind = case["kind"]
+        if kind == "ext":
+            return {"kind": kind, "kernel": case["k"]["t"], "scalar": "r", "via": case["via"], "ext": "+".join(self.ext_class(case))}
+        if kind == "extseq":
+            w = case["w"]
+            cl = ("nonfinite_weight" if any(not finite(a) for a in w) else "zero_total" if sum(w) == 0 else "negative_weight" if any(a < 0 for a in w) else "plain")
+            return {"kind": kind, "kernel": "list", "scalar": "r", "ext": cl, "dims": len(case["dims"])}
+        if kind == "coll":
+            return {"kind": kind, "kernel": "gaussian", "scalar": "f", "tracks": min(len(case["tracks"]), 4),
+                    "width_argument": "omitted" if case.get("womit") else "given"}
         if kind == "session":
             t = {"kind": kind, "scalar": case["sc"], "steps": len(case["steps"]), "prebuilt_kernels": bool(case.get("prebuild")),
                  "apis": "+".join(sorted({st["api"] for st in case["steps"]})),
@@ -1016,6 +1443,12 @@ class P(Prop):
 
     def nontrivial(self, case):
         kind = case["kind"]
+        if kind == "ext":
+            return False
+        if kind == "coll":
+            return len(case["tracks"]) >= 2 and not case.get("womit")
+        if kind == "extseq":
+            return False
         if kind == "sw":
             return True
         if kind in ("zeronorm", "badk"):
@@ -1181,6 +1614,12 @@ class P(Prop):
 
     def impl_raw(self, case):
         kind = case["kind"]
+        if kind == "ext":
+            return self.ext_impl(case)
+        if kind == "coll":
+            return self.coll_impl(case)
+        if kind == "extseq":
+            return self.extseq_impl(case)
         if kind == "sw":
             return {"window": self.window_of(case["k"])}
         if kind in ("feat", "zeronorm", "short", "zerow", "inff"):
@@ -1327,6 +1766,12 @@ class P(Prop):
 
     def _requests(self, case):
         kind, sc = case["kind"], case["sc"]
+        if kind == "ext":
+            return self.ext_requests(case)
+        if kind == "coll":
+            return self.coll_requests(case)
+        if kind == "extseq":
+            return self.extseq_requests(case)
         if kind == "sw" or (kind == "badk" and "dims" not in case):
             return ["C15.sw %s %s" % (sc, self.kspec(sc, case["k"]))]
         if kind in ("feat", "zeronorm", "short", "zerow", "inff"):
@@ -1421,6 +1866,12 @@ class P(Prop):
         kind, sc = case["kind"], case["sc"]
         if any(r == "bad-request" or r.startswith("bad-request ") or " # bad-request" in r for r in replies):
             raise ValueError("bad-request")
+        if kind == "ext":
+            return self.ext_decode(case, replies)
+        if kind == "coll":
+            return self.coll_decode(case, replies)
+        if kind == "extseq":
+            return self.extseq_decode(case, replies)
         if kind == "sw" or (kind == "badk" and "dims" not in case):
             r = replies[-1].split(" ")
             if r[0] != "ok":
@@ -1500,6 +1951,14 @@ class P(Prop):
         return "impl=%s model=%s" % (str(impl_out)[:400], str(model_out)[:400])
 
     def compare(self, case, impl_out, model_out):
+        if case["kind"] == "coll":
+            return self.coll_compare(case, impl_out, model_out)
+        if case["kind"] == "extseq" and "err" not in impl_out and "err" not in model_out:
+            # what filter_seq leaves in the caller's weight list is the library's business (the model divides it by its total at every
+            # dimension, as the code does today; the in-place normalisation itself is compared at the level of Filter.execute, stream 'ext'):
+            # the tracks are compared, `kafter` is kept in the outputs for the record only
+            impl_out = {k: v for k, v in impl_out.items() if k != "kafter"}
+            model_out = {k: v for k, v in model_out.items() if k != "kafter"}
         if case["kind"] == "session" and "steps" in impl_out and "steps" in model_out:
             for i, (a, b) in enumerate(zip(impl_out["steps"], model_out["steps"])):
                 bad = self.compare_one(a, b)
@@ -1569,6 +2028,12 @@ class P(Prop):
 
     def spec(self, case, out):
         kind = case["kind"]
+        if kind == "ext":
+            return self.ext_spec(case, out)
+        if kind == "coll":
+            return self.coll_spec(case, out)
+        if kind == "extseq":
+            return self.extseq_spec(case, out)
         if kind in ("zeronorm", "badk") or (kind == "opl" and not case["judge"]):
             return None  # outside the domain of the property (a window without valid weight / a refused call / a form of
             #              the list arguments whose final track the property does not describe)
@@ -1705,10 +2170,30 @@ class P(Prop):
 
     # ---------------------------------------------------------------- shrinking / search
     def _sig_names(self, case):
-        return ["sig"] if case["kind"] in ("feat", "zeronorm", "short", "zerow", "inff") else ["x", "y", "z"]
+        return ["sig"] if case["kind"] in ("feat", "zeronorm", "short", "zerow", "inff", "ext") else ["x", "y", "z"]
 
     def shrink(self, case):
         kind = case["kind"]
+        if kind == "extseq":
+            if len(case["dims"]) > 1:
+                for d in case["dims"]:
+                    yield dict(case, dims=[e for e in case["dims"] if e != d])
+            return
+        if kind == "coll":
+            ts = case["tracks"]
+            if len(ts) > 1:
+                for i in range(len(ts)):
+                    yield dict(case, tracks=ts[:i] + ts[i + 1:])
+            return
+        if kind == "ext":
+            v = case["sig"]
+            if case["via"] == "list" and len(v) > 1:
+                for i in range(len(v)):
+                    yield dict(case, sig=v[:i] + v[i + 1:])
+            for i in range(len(v)):
+                if finite(v[i]) and v[i] not in (0, 1):
+                    yield dict(case, sig=v[:i] + [1] + v[i + 1:])
+            return
         if kind == "sw":
             k = case["k"]
             if k["t"] == "user":
@@ -1843,6 +2328,16 @@ class P(Prop):
 
     def mutate(self, case, rng):
         kind = case["kind"]
+        if kind == "extseq":
+            return
+        if kind == "coll":
+            return
+        if kind == "ext":
+            v = case["sig"]
+            for _ in range(12):
+                i = rng.randrange(len(v))
+                yield dict(case, sig=v[:i] + [rng.choice([0, 1, 2, -1, 0.5, 4, None, "inf", "-inf"])] + v[i + 1:])
+            return
         if kind == "sw":
             if "p" in case["k"]:
                 for p in self.WIDTHS:
